@@ -18,6 +18,8 @@ PROGRAMS = [
     "i = 0\nwhile True:\n    i += 1\n    if i > 3:\n        break\nelse:\n    print('no')\nfor j in range(3):\n    if j == 1:\n        continue\n    print(j)\n",
     # class, import, destructuring
     "import os.path as p\nclass A:\n    x = 1\n    def m(self, q, r):\n        return [lambda: q, lambda: r]\na, *b = [1, 2, 3]\nprint(A().m(1, 2)[0](), a, b)\n",
+    # several names imported by one from-import, several captured variables of one function
+    "from os.path import join, split, basename as bn, dirname\nimport os.path as p, json as j\ndef mk(a, b, c, d):\n    def inner():\n        return (a, b, c, d)\n    return inner()\nprint(bn(join('x', 'y')), split('a/b'), dirname('c/d'), mk(1, 2, 3, 4))\n",
     # for + break / return inside a for: the generated code carries the iterator-wrapper preset (a module-level AST of the package)
     "for q in [1, 2, 3]:\n    if q == 2:\n        break\n    print(q)\nelse:\n    print('none')\ndef first(xs):\n    for x in xs:\n        if x:\n            return x\n    return None\nprint(first([0, 3]))\n",
 ]
